@@ -1,7 +1,216 @@
-/- C02 line-protocol driver (core-only). Stub until the property's model lands. -/
+/- C02 line-protocol driver (core-only).
+
+  run <tree> <ops>                 one observation per op (same rendering as harness/p02 `observe`)
+  amb <tree> <ops>                 "1" if some invalidate/reconsider op of the history has more than one
+                                   admissible outcome in the model (map-order dependence), else "0"
+  explain <tree> <ops> <goOut>     replays the faithful model, resolving each map-order choice so that the
+                                   model reproduces the implementation's observations; answers
+                                   `ok` | `F-C02-a@k` | `F-C02-b@k` | `nomatch@k`
+
+The `run` answer is the model's observation; after every op the Spec is consulted independently
+(`Spec.bestWork` over the delivered blocks): if the model's tip is not a most-work valid chain the
+answer for that op is replaced by `!spec/<work>` and the line stops there, so that a disagreement
+between the algorithm and the property is visible as a Go≠Lean line. -/
+import BV.C02.Model
 namespace BV.C02.Driver
+open BV.C02
+
+def parseBlock? (t : String) : Option BlockAbs :=
+  match t.splitOn ":" with
+  | [i, p, w, f] => do
+    let i ← i.toNat?
+    let p ← p.toNat?
+    let w ← w.toNat?
+    if i == 0 || w == 0 then none else
+    match f.toList with
+    | [a, b, c, d] =>
+      if [a, b, c, d].all (fun x => x == '0' || x == '1') then
+        some ⟨i, p, w, a == '1', b == '1', c == '1', d == '1'⟩
+      else none
+    | _ => none
+  | _ => none
+
+def parseTree? (t : String) : Option (List BlockAbs) :=
+  if t == "-" then some [] else
+  match (t.splitOn ",").mapM parseBlock? with
+  | some bs =>
+    -- ids must be unique
+    if (bs.map (·.hash)).eraseDups.length == bs.length then some bs else none
+  | none => none
+
+/-- every block's parent chain must reach genesis inside the tree (the harness cannot build it otherwise) -/
+def reaches (bs : List BlockAbs) : Nat → Hash → Bool
+  | 0, _ => false
+  | f + 1, h => if h == 0 then true else
+    match bs.find? (fun b => b.hash == h) with
+    | some b => reaches bs f b.parent
+    | none => false
+
+def parseOp? (bs : List BlockAbs) (t : String) : Option Op :=
+  match t.toList with
+  | k :: rest =>
+    let body := String.ofList rest
+    let ch : Option Hash := none
+    match body.toNat? with
+    | none => none
+    | some id =>
+      let blk := bs.find? (fun b => b.hash == id)
+      if k == 'b' then blk.map Op.block
+      else if k == 'h' then blk.map Op.header
+      else if k == 'i' then (if id == 0 || blk.isSome then some (.invalidate id ch) else none)
+      else if k == 'r' then (if id == 0 || blk.isSome then some (.reconsider id ch) else none)
+      else none
+  | [] => none
+
+def parseOps? (bs : List BlockAbs) (t : String) : Option (List Op) :=
+  if t == "-" then some [] else (t.splitOn ",").mapM (parseOp? bs)
+
+def resStr : Res → String
+  | .main => "m" | .side => "s" | .orphan => "o" | .dup => "d" | .rej => "e" | .ok => "k" | .fail => "f"
+
+def hexDigit (n : Nat) : Char := if n < 10 then Char.ofNat (48 + n) else Char.ofNat (87 + n)
+def hexStr (n : Nat) : String :=
+  if n < 16 then String.singleton (hexDigit n) else String.singleton (hexDigit (n / 16)) ++ String.singleton (hexDigit (n % 16))
+
+def insertSorted (x : Hash × Nat × Nat × TipStatus) : List (Hash × Nat × Nat × TipStatus) → List (Hash × Nat × Nat × TipStatus)
+  | [] => [x]
+  | y :: r => if x.1 ≤ y.1 then x :: y :: r else y :: insertSorted x r
+
+def tipChar : TipStatus → String
+  | .active => "a" | .invalid => "i" | .validFork => "v" | .unknown => "u"
+
+def heightOf (s : State) (h : Hash) : Nat :=
+  match lookup s.idx h with
+  | some n => n.height
+  | none => 0
+
+/-- res/tip@height/chain/mainbits/statuses/tips/notes -/
+def observe (s : State) (r : Res) (ids : List Hash) (newNotes : List Note) : String :=
+  let chain := String.intercalate "." (s.best.reverse.map toString)
+  let main := String.join (ids.map (fun i => if s.best.contains i then "1" else "0"))
+  let sts := String.intercalate "." (ids.map (fun i =>
+    match lookup s.idx i with
+    | some _ => hexStr (s.status i).toByte
+    | none => "-"))
+  let tips := (chainTips s).foldl (fun acc t => insertSorted t acc) []
+  let tipsS := String.intercalate "," (tips.map (fun t =>
+    toString t.1 ++ ":" ++ toString t.2.1 ++ ":" ++ toString t.2.2.1 ++ ":" ++ tipChar t.2.2.2))
+  let notesS := if newNotes.isEmpty then "=" else
+    String.join (newNotes.map (fun n => match n with | .conn h => "+" ++ toString h | .disc h => "-" ++ toString h))
+  resStr r ++ "/" ++ toString s.tip ++ "@" ++ toString (heightOf s s.tip) ++ "/" ++ chain ++ "/" ++ main ++ "/" ++
+    sts ++ "/" ++ tipsS ++ "/" ++ notesS
+
+def sortNat (l : List Nat) : List Nat :=
+  l.foldl (fun acc x =>
+    let rec ins : List Nat → List Nat
+      | [] => [x]
+      | y :: r => if x ≤ y then x :: y :: r else y :: ins r
+    ins acc) []
+
+/-- Spec bookkeeping carried along a history: delivered blocks (minus evicted orphans) and the
+hashes currently excluded by a manual invalidation -/
+structure SpecSt where
+  delivered : List BlockAbs := []
+  excl : List Hash := []
+
+def specAfter (sp : SpecSt) (o : Op) (s' : State) : SpecSt :=
+  match o with
+  | .block b =>
+    let d := if sp.delivered.any (fun x => x.hash == b.hash) then sp.delivered else b :: sp.delivered
+    { sp with delivered := d.filter (fun x => !s'.evicted.contains x.hash) }
+  | .header _ => sp
+  | .invalidate h _ =>
+    if h == 0 || (lookup s'.idx h).isNone then sp
+    else if sp.excl.contains h then sp else { sp with excl := h :: sp.excl }
+  | .reconsider h _ => { sp with excl := sp.excl.filter (· != h) }
+
+def specOk (sp : SpecSt) (s : State) : Bool :=
+  Spec.bestWork sp.delivered sp.excl == s.wsum s.tip
+
+def stepNotes (s s' : State) : List Note := (s'.notes.take (s'.notes.length - s.notes.length)).reverse
+
+/-- check the Spec after every op on small trees, otherwise after i/r ops and at the end -/
+def checkHere (n : Nat) (o : Op) (last : Bool) : Bool :=
+  last || n ≤ 40 || (match o with | .invalidate .. => true | .reconsider .. => true | _ => false)
+
+def runObs (ids : List Hash) : State → SpecSt → List Op → List String → List String
+  | _, _, [], acc => acc.reverse
+  | s, sp, o :: rest, acc =>
+    let (s', r) := step s o
+    let sp' := specAfter sp o s'
+    if checkHere ids.length o rest.isEmpty && !specOk sp' s' then
+      (("!spec/" ++ toString (Spec.bestWork sp'.delivered sp'.excl)) :: acc).reverse
+    else runObs ids s' sp' rest (observe s' r ids (stepNotes s s') :: acc)
+
+/-! #### explain / amb: the admissible choices of an i/r op -/
+
+def choicesOf (s : State) : Op → List (Option Hash)
+  | .invalidate h _ =>
+    -- simulate up to the selection point: the candidates are determined by the state after detaching
+    match lookup s.idx h with
+    | none => [none]
+    | some _ =>
+      if !(s.best.contains h) then [none] else
+      -- all inactive tips may be named; `pick` ignores names outside the max-work set
+      none :: ((s.idx.map (fun n => some n.blk.hash)))
+  | .reconsider h _ => none :: (s.idx.map (fun n => some n.blk.hash))
+  | _ => [none]
+
+def withChoice : Op → Option Hash → Op
+  | .invalidate h _, c => .invalidate h c
+  | .reconsider h _, c => .reconsider h c
+  | o, _ => o
+
+def distinctOutcomes (s : State) (o : Op) (ids : List Hash) : List String :=
+  ((choicesOf s o).map (fun c => let (s', r) := step s (withChoice o c); observe s' r ids (stepNotes s s'))).eraseDups
+
+def ambRun (ids : List Hash) : State → List Op → Bool
+  | _, [] => false
+  | s, o :: rest =>
+    if (distinctOutcomes s o ids).length > 1 then true
+    else ambRun ids (step s o).1 rest
+
+def explainRun (ids : List Hash) : State → SpecSt → List Op → List String → Nat → String
+  | _, _, [], _, _ => "ok"
+  | _, _, _ :: _, [], k => "nomatch@" ++ toString k
+  | s, sp, o :: rest, g :: gs, k =>
+    let cs := choicesOf s o
+    match cs.find? (fun c => let (s', r) := step s (withChoice o c); observe s' r ids (stepNotes s s') == g) with
+    | none => "nomatch@" ++ toString k
+    | some c =>
+      let (s', _) := step s (withChoice o c)
+      let sp' := specAfter sp o s'
+      if !specOk sp' s' then
+        match o with
+        | .invalidate .. => "F-C02-a@" ++ toString k
+        | .reconsider .. => "F-C02-b@" ++ toString k
+        | _ => "spec@" ++ toString k
+      else explainRun ids s' sp' rest gs (k + 1)
+
+def prep (tree ops : String) : Option (List BlockAbs × List Op × List Hash) :=
+  match parseTree? tree with
+  | none => none
+  | some bs =>
+    if !(bs.all (fun b => reaches bs (bs.length + 1) b.hash && b.work == 1)) then none else
+    match parseOps? bs ops with
+    | none => none
+    | some os => some (bs, os, sortNat (bs.map (·.hash)))
 
 def handle : List String → String
-  | _ => "unimplemented"
+  | ["run", tree, ops] =>
+    match prep tree ops with
+    | none => "bad-op"
+    | some (_, os, ids) =>
+      let out := runObs ids init {} os []
+      if out.isEmpty then "-" else String.intercalate ";" out
+  | ["amb", tree, ops] =>
+    match prep tree ops with
+    | none => "bad-op"
+    | some (_, os, ids) => if ambRun ids init os then "1" else "0"
+  | ["explain", tree, ops, g] =>
+    match prep tree ops with
+    | none => "bad-op"
+    | some (_, os, ids) => explainRun ids init {} os (g.splitOn ";") 0
+  | _ => "bad-op"
 
 end BV.C02.Driver
